@@ -13,6 +13,12 @@ family x shape) the harness
 The independent oracle states the property in numpy: offset = closed-form posterior mean, G G^T = H^-1,
 no dependence on the current state.
 
+SCALE: every cell is additionally posed in other units -- the same exact rational problem with x-units alpha, y-units beta,
+noise std and prior std each multiplied by dyadic factors 2^e, e in {-40,-34,-17,17,34,40} (consistently, per unit, and
+independently: only the noise tiny/huge, only the prior tiny/huge).  Dyadic scaling keeps the EXACT comparisons exact; every
+tolerance (model side and oracle side) is relative to the scale of the quantity compared, the read-off perturbs with c*e_i,
+c a power of two at the scale of b_tild, and the oracle's posterior mean / covariance are exact (Fractions).
+
 UGLA: the same with the smoothed-Laplace weights certified (sw^4 ((D z)^2 + beta) = 1).  Design-time defect #17
 (location != 0: weights from D x_k instead of D (x_k - loc), L2mu not scaled by 1/sqrt(scale)) is re-found by the
 oracle; a repair is proposed in fixes/C06_ugla_location.diff and both states of the tree are handled (the state is
@@ -27,8 +33,10 @@ IMPORTS = ("From CV Require Import Base.Cmp Base.QcLin Model.C06_RTO.\n"
 RULE = ("configurations = interface (experimental, legacy) x target (Posterior, MultipleLikelihoodPosterior with 2-3 likelihoods, "
         "legacy 5-tuple) x model (matrix, function pair) x noise and prior Gaussian in all 4x4 input forms (cov/prec/sqrtcov/sqrtprec "
         "x scalar/vector/diagonal 2-d/full 2-d) x prior family (Gaussian scalar or vector mean, GMRF zero/neumann/periodic order 1-2, "
-        "JointGaussianSqrtPrec) x under/over-determined, n<=4, rows<=5 per likelihood, several current states; UGLA: interface x "
-        "boundary condition x location (0, scalar, vector) x scale x beta x current state. Every configuration yields one case per "
+        "JointGaussianSqrtPrec) x under/over-determined, n<=4, rows<=5 per likelihood, several current states, x unit-scale pattern "
+        "(base; x-units, y-units, both, noise-only, prior-only times 2^e, e in -40,-34,-17,17,34,40; plus a dedicated sweep making each of "
+        "the 4 full-matrix input forms of noise and prior tiny and huge); UGLA: interface x "
+        "boundary condition x location (0, scalar, vector) x scale x beta x current state x unit-scale pattern. Every configuration yields one case per "
         "stage (forms, precompute, draws, law, state). distinct = distinct (configuration, stage); trivial = none")
 
 MAXIT = 400
@@ -89,6 +97,34 @@ def f_det(M):
             f = M[r][c] / M[c][c]
             M[r] = [a - f * b for a, b in zip(M[r], M[c])]
     return d
+
+
+def f_solve_inv(H, r):
+    """exact H^-1 r and H^-1 by Gauss-Jordan over Fractions (H symmetric positive definite, n <= 5)"""
+    n = len(H)
+    M = [list(map(Fraction, H[i])) + [Fraction(r[i])] + [Fraction(int(i == j)) for j in range(n)] for i in range(n)]
+    for c in range(n):
+        p = next(i for i in range(c, n) if M[i][c] != 0)
+        M[c], M[p] = M[p], M[c]
+        piv = M[c][c]
+        M[c] = [a / piv for a in M[c]]
+        for i in range(n):
+            if i != c and M[i][c] != 0:
+                f = M[i][c]
+                M[i] = [a - f * b for a, b in zip(M[i], M[c])]
+    return [M[i][n] for i in range(n)], [M[i][n + 1:] for i in range(n)]
+
+
+def f_madd(A, B):
+    return [[a + b for a, b in zip(ra, rb)] for ra, rb in zip(A, B)]
+
+
+def f_vadd(a, b):
+    return [x + y for x, y in zip(a, b)]
+
+
+def pow2(e):
+    return Fraction(2) ** e
 
 
 def tofloat(M):
@@ -218,6 +254,77 @@ def py_user_prec(g):
 def gauss_kwargs(g):
     v = g["value"]
     return {g["form"]: (float(v) if g["shape"] == "scalar" else np.array(v, dtype=float))}
+
+
+# ---------------------------------------------------------------------------------------------
+# unit-scale patterns: x-units alpha = 2^ka, y-units beta = 2^kb, noise std relative factor sigma = 2^kn, prior std
+# relative factor tau = 2^kp:   A -> (beta/alpha) A, b -> beta b, noise std -> beta sigma, prior std -> alpha tau,
+# prior mean, location, current states -> alpha.   Multiplication by powers of two is exact in binary64.
+# ---------------------------------------------------------------------------------------------
+SCALE_E = [-34, -17, 17, 34]
+PATTERNS = [("base", 0, 0, 0, 0)]
+for _e in SCALE_E:
+    PATTERNS += [("units-xy%+d" % _e, _e, _e, 0, 0), ("units-x%+d" % _e, _e, 0, 0, 0), ("units-y%+d" % _e, 0, _e, 0, 0),
+                 ("noise-only%+d" % _e, 0, 0, _e, 0), ("prior-only%+d" % _e, 0, 0, 0, _e)]
+# (x-units above 2^34 are not posed: CGLS stops on its ABSOLUTE clause normx*tol >= 1 -- with the harness's tol = 1e-13 from
+#  |x| ~ 1e13 on, with LinearRTO's default tol = 1e-6 already from |x| ~ 1e6 -- whatever the residual; see `fired` below)
+PATTERNS += [("units-xy-40", -40, -40, 0, 0), ("units-y+40", 0, 40, 0, 0)]
+PATTERN_BY_NAME = {p[0]: p for p in PATTERNS}
+
+
+def scale_gspec(g, k):
+    """multiply the standard deviations of a Gaussian specification by 2^k (exactly)"""
+    g = copy.deepcopy(g)
+    fac = {"cov": pow2(2 * k), "prec": pow2(-2 * k), "sqrtcov": pow2(k), "sqrtprec": pow2(-k)}[g["form"]]
+    ffac, fauxfac = float(fac), float(1 / fac)
+
+    def mul(v, c):
+        if isinstance(v, list):
+            return [mul(a, c) for a in v]
+        return v * c
+    g["value"] = mul(g["value"], ffac)
+    if g.get("aux") is not None:
+        g["aux"] = mul(g["aux"], fauxfac)
+    return g
+
+
+def apply_scale(spec, pat):
+    name, ka, kb, kn, kp = pat
+    spec = copy.deepcopy(spec)
+    spec["scale"] = {"name": name, "ka": ka, "kb": kb, "kn": kn, "kp": kp}
+    if (ka, kb, kn, kp) == (0, 0, 0, 0):
+        return spec
+    a, b = float(pow2(ka)), float(pow2(kb))
+    ab = float(pow2(kb - ka))
+    for l in spec["liks"]:
+        l["A"] = [[v * ab for v in r] for r in l["A"]]
+        l["b"] = [v * b for v in l["b"]]
+        l["noise"] = scale_gspec(l["noise"], kb + kn)
+    p = spec["prior"]
+    if p["kind"] == "gaussian":
+        p["mean"] = [v * a for v in p["mean"]]
+        p["g"] = scale_gspec(p["g"], ka + kp)
+    elif p["kind"] == "gmrf":
+        p["mean"] = [v * a for v in p["mean"]]
+        p["prec"] = p["prec"] * float(pow2(-2 * (ka + kp)))
+    elif p["kind"] == "joint":
+        t = float(pow2(-(ka + kp)))
+        for blk in p["blocks"]:
+            blk["S"] = [[v * t for v in r] for r in blk["S"]]
+            blk["mean"] = [v * a for v in blk["mean"]]
+    elif p["kind"] == "lmrf":
+        p["loc"] = [v * a for v in p["loc"]]
+        p["scale"] = p["scale"] * float(pow2(ka + kp))
+        spec["beta"] = spec["beta"] * float(pow2(2 * ka))
+    spec["xcurs"] = [[v * a for v in xc] for xc in spec["xcurs"]]
+    return spec
+
+
+def pert_scale(b_tild):
+    """power of two >= 1 at the scale of b_tild: the read-off perturbs with c*e_i (linearity: g_i = (x(c e_i)-x(0))/c), so that
+    the difference is not lost against a huge whitened right-hand side"""
+    m = max([abs(v) for v in b_tild] + [1.0])
+    return float(2.0 ** math.ceil(math.log2(m)))
 
 
 # ---------------------------------------------------------------------------------------------
@@ -395,34 +502,40 @@ def observe(cuqi, spec):
             obs["S_liks"] = [dense(target.likelihood.distribution.sqrtprec).tolist()]
             p = len(spec["liks"][0]["b"]) + D.shape[0]
         draws = []
-        es = [[0.0] * p] + [basis(p, i) for i in range(p)]
-        for e in es:
-            x, rec, log = one_draw(cuqi, spec, sampler, spec["xcurs"][0], e, cap)
-            draws.append({"xcur": 0, "e": e, "x": x.tolist(), "k": rec["k"], "fired": bool(rec["k"] < rec["maxit"])})
+
+        def rec_draw(xcur_tag, xcur, e):
+            x, rec, log = one_draw(cuqi, spec, sampler, xcur, e, cap)
+            # the stopping test must have fired on its residual clause norms <= norms0*tol: before maxit, and not on the
+            # absolute clause normx*tol >= 1 (which stops an unconverged iteration once |x| >= 1/tol)
+            fired = bool(rec["k"] < rec["maxit"]) and bool(np.linalg.norm(x) * TOL < 1)
+            draws.append({"xcur": xcur_tag, "xcur_v": list(map(float, xcur)), "e": list(e), "x": x.tolist(), "k": rec["k"], "fired": fired})
+            return x, rec
+        x, rec = rec_draw(0, spec["xcurs"][0], [0.0] * p)
         if spec["kind"] == "ugla":
-            rec = cap.calls[-1]
             Mop = rec["A"]
-            obs["b_tild"] = cap.calls[-1 - p]["b"].tolist()              # the e = 0 call: y = b_tild + 0, exactly b_tild
-            obs["b_tild_last"] = (rec["b"] - np.array(es[-1])).tolist()  # y - e of the last call (rounded once)
+            obs["b_tild"] = rec["b"].tolist()                            # the e = 0 call: y = b_tild + 0, exactly b_tild
             obs["M_fwd"] = [np.array(Mop(np.array(basis(n, j)), 1), dtype=float).tolist() for j in range(n)]
             obs["M_adj"] = [np.array(Mop(np.array(basis(p, i)), 2), dtype=float).tolist() for i in range(p)]
             obs["L2"] = dense(sampler._L2).tolist()
+        c = pert_scale(obs["b_tild"])
+        obs["c"] = c
+        estar = [c * v for v in spec["estar"]] if spec.get("estar") else None
+        estar2 = [c * v for v in spec["estar2"]] if spec.get("estar2") else None
+        for i in range(p):
+            rec_draw(0, spec["xcurs"][0], [c * v for v in basis(p, i)])
         # other current states, same perturbations: the draw must not depend on the state (RTO);
         # for UGLA the local Gaussian moves with the state, so other states are separate configurations
         if spec["kind"] == "rto":
             for ci in range(1, len(spec["xcurs"])):
-                for e in (es[0], spec["estar"]):
-                    x, rec, log = one_draw(cuqi, spec, sampler, spec["xcurs"][ci], e, cap)
-                    draws.append({"xcur": ci, "e": e, "x": x.tolist(), "k": rec["k"], "fired": bool(rec["k"] < rec["maxit"])})
-            x, rec, log = one_draw(cuqi, spec, sampler, spec["xcurs"][0], spec["estar"], cap)
-            draws.append({"xcur": 0, "e": spec["estar"], "x": x.tolist(), "k": rec["k"], "fired": bool(rec["k"] < rec["maxit"])})
+                for e in ([0.0] * p, estar):
+                    rec_draw(ci, spec["xcurs"][ci], e)
+            x, rec = rec_draw(0, spec["xcurs"][0], estar)
             # chained: start from the previous draw (the state IS a posterior draw), fresh perturbation e2, and the
             # same e2 from the first state.  (Re-using the SAME e from its own solution would start CGLS at the exact
             # solution, where its relative stopping rule norms <= norms0*tol can never fire: not a sampling situation.)
-            x2, rec, log = one_draw(cuqi, spec, sampler, x.tolist(), spec["estar2"], cap)
-            draws.append({"xcur": "prev", "e": spec["estar2"], "x": x2.tolist(), "k": rec["k"], "fired": bool(rec["k"] < rec["maxit"])})
-            x3, rec, log = one_draw(cuqi, spec, sampler, spec["xcurs"][0], spec["estar2"], cap)
-            draws.append({"xcur": 0, "e": spec["estar2"], "x": x3.tolist(), "k": rec["k"], "fired": bool(rec["k"] < rec["maxit"])})
+            rec_draw("prev", x.tolist(), estar2)
+            rec_draw(0, spec["xcurs"][0], estar2)
+            obs["estar"] = estar
         obs["draws"] = draws
         obs["p"] = p
     return obs
@@ -432,81 +545,92 @@ def observe(cuqi, spec):
 # independent oracle: the property itself, in numpy, from user-level quantities only
 # ---------------------------------------------------------------------------------------------
 def user_posterior(spec, obs):
-    """H, rhs of the Gaussian posterior the user specified (float64 from exact Fractions)"""
+    """H, rhs of the Gaussian posterior the user specified, EXACTLY (lists of Fractions): every float of the spec is a
+    rational; precisions come from py_user_prec (no square roots, no numpy)"""
     n = spec["n"]
-    H = np.zeros((n, n))
-    r = np.zeros(n)
+    H = [[Fraction(0)] * n for _ in range(n)]
+    r = [Fraction(0)] * n
     for l in spec["liks"]:
-        A = np.array(l["A"], dtype=float)
-        Lam = np.array(tofloat(py_user_prec(l["noise"])))
-        H += A.T @ Lam @ A
-        r += A.T @ Lam @ np.array(l["b"], dtype=float)
+        A = fmat(l["A"])
+        AtL = f_matmul(f_T(A), py_user_prec(l["noise"]))
+        H = f_madd(H, f_matmul(AtL, A))
+        r = f_vadd(r, f_matvec(AtL, [F(v) for v in l["b"]]))
     p = spec["prior"]
     if p["kind"] == "gaussian":
-        P = np.array(tofloat(py_user_prec(p["g"])))
-        mu = np.ones(n) * np.array(p["mean"], dtype=float)
-        H += P
-        r += P @ mu
+        P = py_user_prec(p["g"])
+        mu = [F(p["mean"][0])] * n if len(p["mean"]) == 1 else [F(v) for v in p["mean"]]
+        H, r = f_madd(H, P), f_vadd(r, f_matvec(P, mu))
     elif p["kind"] == "gmrf":
-        reg = SQRT_EPS if p["bc"] != "zero" else 0.0
-        P = float(p["prec"]) * (np.array(obs["Pop"], dtype=float) + reg * np.eye(n))
-        H += P
-        r += P @ np.array(p["mean"], dtype=float)
+        reg = F(SQRT_EPS) if p["bc"] != "zero" else Fraction(0)
+        P = [[F(p["prec"]) * (F(obs["Pop"][i][j]) + (reg if i == j else 0)) for j in range(n)] for i in range(n)]
+        H, r = f_madd(H, P), f_vadd(r, f_matvec(P, [F(v) for v in p["mean"]]))
     elif p["kind"] == "joint":
         for b in p["blocks"]:
-            S = np.array(b["S"], dtype=float)
-            H += S.T @ S
-            r += S.T @ S @ np.array(b["mean"], dtype=float)
+            S = fmat(b["S"])
+            P = f_matmul(f_T(S), S)
+            H, r = f_madd(H, P), f_vadd(r, f_matvec(P, [F(v) for v in b["mean"]]))
     return H, r
 
 
 def ugla_doc_posterior(spec, obs):
+    """the documented local Gaussian at x_k; the weights (one sqrt each) are float64, everything else exact"""
     n = spec["n"]
     l, p = spec["liks"][0], spec["prior"]
-    A = np.array(l["A"], dtype=float)
-    Lam = np.array(tofloat(py_user_prec(l["noise"])))
-    D = np.array(obs["D"], dtype=float)
-    loc = np.ones(n) * np.array(p["loc"], dtype=float)
-    xk = np.array(spec["xcurs"][0], dtype=float)
-    w = 1.0 / np.sqrt((D @ (xk - loc)) ** 2 + spec["beta"])
-    P = D.T @ np.diag(w) @ D / float(p["scale"])
-    return A.T @ Lam @ A + P, A.T @ Lam @ np.array(l["b"], dtype=float) + P @ loc
+    A = fmat(l["A"])
+    AtL = f_matmul(f_T(A), py_user_prec(l["noise"]))
+    D = fmat(obs["D"])
+    loc = [F(p["loc"][0])] * n if len(p["loc"]) == 1 else [F(v) for v in p["loc"]]
+    xk = [F(v) for v in spec["xcurs"][0]]
+    dz = f_matvec(D, [a - b for a, b in zip(xk, loc)])
+    w = [F(1.0 / math.sqrt(float(d * d + F(spec["beta"])))) for d in dz]
+    WD = [[w[i] * v / F(p["scale"]) for v in D[i]] for i in range(len(D))]
+    P = f_matmul(f_T(D), WD)
+    H = f_madd(f_matmul(AtL, A), P)
+    r = f_vadd(f_matvec(AtL, [F(v) for v in l["b"]]), f_matvec(P, loc))
+    return H, r
 
 
 def read_off(obs):
-    p = obs["p"]
+    p, c = obs["p"], obs["c"]
     x0 = np.array(obs["draws"][0]["x"])
-    G = np.array([np.array(obs["draws"][1 + i]["x"]) - x0 for i in range(p)]).T      # n x p
+    G = np.array([(np.array(obs["draws"][1 + i]["x"]) - x0) / c for i in range(p)]).T      # n x p
     return x0, G
 
 
+def exact_posterior(spec, obs):
+    H, r = user_posterior(spec, obs) if spec["kind"] == "rto" else ugla_doc_posterior(spec, obs)
+    mean, cov = f_solve_inv(H, r)
+    return H, r, mean, cov
+
+
 def oracle_check(spec, obs):
-    """None, or (signature-suffix, description) when the property fails on the implementation"""
+    """None, or (signature-suffix, description) when the property fails on the implementation.
+    All tolerances are relative to the scale of the exact quantity (no absolute floor)."""
     x0, G = read_off(obs)
-    if spec["kind"] == "rto":
-        H, r = user_posterior(spec, obs)
-    else:
-        H, r = ugla_doc_posterior(spec, obs)
-    mean = np.linalg.solve(H, r)
-    cov = np.linalg.inv(H)
-    sc = 1 + np.max(np.abs(mean))
+    H, r, mean_f, cov_f = exact_posterior(spec, obs)
+    mean = np.array([float(v) for v in mean_f])
+    cov = np.array([[float(v) for v in row] for row in cov_f])
+    # natural scale of the unknown: max(|posterior mean|, largest posterior standard deviation) -- both exact
+    sc = max(np.max(np.abs(mean)), math.sqrt(max(float(cov_f[i][i]) for i in range(len(cov_f)))))
     if not np.all(np.isfinite(x0)) or np.max(np.abs(x0 - mean)) > 1e-6 * sc:
-        return "mean", "offset x(e=0) = %s but the posterior mean is %s (max diff %.3g)" % (x0.tolist(), mean.tolist(), np.max(np.abs(x0 - mean)))
+        return "mean", "offset x(e=0) = %s but the posterior mean is %s (max diff %.3g, scale %.3g)" % (x0.tolist(), mean.tolist(), np.max(np.abs(x0 - mean)), sc)
     GG = G @ G.T
-    if np.max(np.abs(GG - cov)) > 1e-6 * (1 + np.max(np.abs(cov))):
-        return "cov", "G G^T = %s but the posterior covariance is %s (max diff %.3g)" % (GG.tolist(), cov.tolist(), np.max(np.abs(GG - cov)))
+    if not np.all(np.isfinite(GG)) or np.max(np.abs(GG - cov)) > 1e-6 * np.max(np.abs(cov)):
+        return "cov", "G G^T = %s but the posterior covariance is %s (max diff %.3g, scale %.3g)" % (GG.tolist(), cov.tolist(), np.max(np.abs(GG - cov)), np.max(np.abs(cov)))
     if spec["kind"] == "rto":
         ref = {}
         for d in obs["draws"]:
             key = tuple(d["e"])
-            if key in ref and np.max(np.abs(np.array(d["x"]) - ref[key])) > 1e-6 * sc:
-                return "state", "same perturbation, current state %r: draw %s vs %s from the first state" % (d["xcur"], d["x"], ref[key].tolist())
+            if key in ref:
+                if np.max(np.abs(np.array(d["x"]) - ref[key])) > 1e-6 * sc:
+                    return "state", "same perturbation, current state %r: draw %s vs %s from the first state" % (d["xcur"], d["x"], ref[key].tolist())
             ref.setdefault(key, np.array(d["x"]))
         # affine: x(e*) = x0 + G e*
-        es = np.array(spec["estar"])
-        xs = np.array([d["x"] for d in obs["draws"] if d["xcur"] == 0 and d["e"] == spec["estar"]][0])
-        if np.max(np.abs(x0 + G @ es - xs)) > 1e-6 * sc:
-            return "affine", "x(e*) = %s is not x(0) + G e* = %s" % (xs.tolist(), (x0 + G @ es).tolist())
+        es = np.array(obs["estar"])
+        xs_ = np.array([d["x"] for d in obs["draws"] if d["xcur"] == 0 and d["e"] == obs["estar"]][0])
+        pred = x0 + G @ es
+        if np.max(np.abs(pred - xs_)) > 1e-6 * max(np.max(np.abs(pred)), sc):
+            return "affine", "x(e*) = %s is not x(0) + G e* = %s" % (xs_.tolist(), pred.tolist())
     return None
 
 
@@ -557,7 +681,7 @@ def gen_prior(rng, n, cell):
     return {"kind": "joint", "blocks": blocks}
 
 
-def gen_rto_spec(rng, idx, iface, target, mkind, noise_cells, prior_cell, shape_kind):
+def gen_rto_spec(rng, idx, iface, target, mkind, noise_cells, prior_cell, shape_kind, patname="base"):
     n_min = 3 if prior_cell[0] == "gmrf" else 2
     if prior_cell[0] == "gmrf" and prior_cell[2] == 2:
         n_min = 4
@@ -582,10 +706,13 @@ def gen_rto_spec(rng, idx, iface, target, mkind, noise_cells, prior_cell, shape_
     spec = {"kind": "rto", "iface": iface, "target": target, "mkind": mkind, "n": n, "liks": liks, "prior": prior,
             "xcurs": [[0.0] * n, rand_dyadic_vec(rng, n), [float(rng.randint(-30, 30)) for _ in range(n)]],
             "shape": shape_kind, "idx": idx}
-    return spec
+    spec["cell"] = cell_name(spec) + "/units=" + patname
+    return apply_scale(spec, PATTERN_BY_NAME[patname])
 
 
 def cell_name(spec):
+    if spec.get("cell"):
+        return spec["cell"]
     if spec["kind"] == "ugla":
         p = spec["prior"]
         locc = "loc0" if all(v == 0 for v in p["loc"]) else ("locscalar" if len(p["loc"]) == 1 else "locvector")
@@ -599,6 +726,26 @@ def cell_name(spec):
         pc = "joint%d" % len(p["blocks"])
     nz = "+".join("%s-%s" % (l["noise"]["form"], l["noise"]["shape"]) for l in spec["liks"])
     return "rto/%s/%s/%s/k%d/%s/noise=%s/prior=%s" % (spec["iface"], spec["target"], spec["mkind"], len(spec["liks"]), spec["shape"], nz, pc)
+
+
+def singular_prior(pc):
+    return pc[0] == "gmrf" and pc[1] in ("neumann", "periodic")
+
+
+def fit_pattern(patname, singular, shape):
+    """make a unit-scale pattern compatible with the cell: when the likelihood dominates the posterior (noise tiny or
+    prior huge) the stacked model must have full column rank (over-determined); when the prior dominates (noise huge or
+    prior tiny) the prior precision must be definite -- otherwise the SAME exponent is applied to both units instead"""
+    name, ka, kb, kn, kp = PATTERN_BY_NAME[patname]
+    lik_dom, prior_dom = (kn < 0 or kp > 0), (kn > 0 or kp < 0)
+    if prior_dom and singular:
+        patname = "units-xy%+d" % (kn or kp)
+    elif lik_dom:
+        shape = "over"
+    return patname, shape
+
+
+TINY_STD_EXP = {"cov": -17, "prec": 17, "sqrtcov": -34, "sqrtprec": 34}     # std factor 2^e making the GIVEN matrix ~ 2^-34
 
 
 def lattice_rto(ctx):
@@ -621,11 +768,42 @@ def lattice_rto(ctx):
             pc = ("gaussian", "sqrtprec", SHAPES[(i // 10) % 4], bool((i // 20) % 2))
             if pc[2] == "scalar" and pc[3]:
                 pc = ("gaussian", "sqrtprec", "vector", True)      # scalar mean AND scalar sqrtprec: prior of dim 1 (refused)
-        specs.append((i, iface, target, mkind, noise, pc, shapes[i % 3]))
+        pat, shape = fit_pattern(PATTERNS[(i * 7 + i // len(PATTERNS)) % len(PATTERNS)][0], singular_prior(pc), shapes[i % 3])
+        specs.append((i, iface, target, mkind, noise, pc, shape, pat))
+    # dedicated unit-scale sweep: each full-matrix input form of the noise / of the prior posed so that the matrix the user
+    # hands over is tiny (entries ~ 2^-34 and below) and huge, alone and together with the other units
+    j = N
+    for rep in range(ctx.n(1, 6)):
+        for form in FORMS:
+            for role in ("noise", "prior", "both"):
+                for direction in (1, -1):
+                    e = TINY_STD_EXP[form] * direction
+                    iface = ["exp", "legacy"][(j + rep) % 2]
+                    target = ["posterior", "mlp"][(j // 2 + rep) % 2]
+                    mkind = ["matrix", "function"][(j // 3 + rep) % 2]
+                    k = 1 if target == "posterior" else 2
+                    other = NOISE_CELLS[(j * 3 + rep) % 16]
+                    noise = [(form, "full") if role in ("noise", "both") else other for _ in range(k)]
+                    pc = ("gaussian", form, "full", bool((j + rep) % 2)) if role in ("prior", "both") else \
+                        PRIOR_CELLS[(j * 5 + rep) % 32]                         # a Gaussian prior cell
+                    patname = {"noise": "noise-only%+d", "prior": "prior-only%+d", "both": "units-xy%+d"}[role] % e
+                    pat, shape = fit_pattern(patname, False, shapes[(j + rep) % 3])
+                    specs.append((j, iface, target, mkind, noise, pc, shape, pat))
+                    j += 1
     return specs
 
 
 UGLA_LOCS = ["zero", "scalar", "vector", "const-vector"]
+
+
+UGLA_PATTERNS = ["base"] + [f % e for e in SCALE_E for f in ("units-xy%+d", "units-y%+d", "units-x%+d", "noise-only%+d", "prior-only%+d")]
+
+
+def fit_ugla_pattern(patname, bc):
+    name, ka, kb, kn, kp = PATTERN_BY_NAME[patname]
+    if (kn > 0 or kp < 0) and bc != "zero":           # prior would dominate, but D^T W D is singular for neumann / periodic
+        return "units-xy%+d" % (kn or kp)
+    return patname
 
 
 def lattice_ugla(ctx):
@@ -634,37 +812,58 @@ def lattice_ugla(ctx):
     bcs = ["zero", "neumann", "periodic"]
     scales = [1.0, 0.25, 4.0, 2.0]
     for i in range(N):
-        out.append((i, ["exp", "legacy"][i % 2], ["matrix", "function"][(i // 2) % 2], bcs[(i // 2) % 3], UGLA_LOCS[(i // 3) % 4],
-                    scales[(i // 4) % 4], [1.0, 0.25, 0.01][(i // 5) % 3], ["zero", "random"][(i // 6 + i) % 2]))
+        bc = bcs[(i // 2) % 3]
+        pat = fit_ugla_pattern(UGLA_PATTERNS[(i * 5 + i // len(UGLA_PATTERNS)) % len(UGLA_PATTERNS)], bc)
+        out.append((i, ["exp", "legacy"][i % 2], ["matrix", "function"][(i // 2) % 2], bc, UGLA_LOCS[(i // 3) % 4],
+                    scales[(i // 4) % 4], [1.0, 0.25, 0.01][(i // 5) % 3], ["zero", "random"][(i // 6 + i) % 2],
+                    NOISE_CELLS[(i * 3) % 16], pat))
+    # unit-scale sweep of the full-matrix noise forms: tiny / huge, alone and with the y-units
+    j = N
+    for rep in range(ctx.n(1, 4)):
+        for form in FORMS:
+            for k, patf in enumerate(("noise-only%+d", "units-y%+d", "units-xy%+d")):
+                e = TINY_STD_EXP[form] * (1 if (k + rep) % 2 == 0 else -1)
+                bc = bcs[(j + rep) % 3]
+                out.append((j, ["exp", "legacy"][(j + rep) % 2], ["matrix", "function"][(j // 2) % 2], bc, UGLA_LOCS[(j + rep) % 4],
+                            scales[(j + rep) % 4], [1.0, 0.25, 0.01][j % 3], ["zero", "random"][j % 2], (form, "full"),
+                            fit_ugla_pattern(patf % e, bc)))
+                j += 1
     return out
 
 
 def gen_ugla_spec(rng, cell):
-    i, iface, mkind, bc, lock, scale, beta, xkk = cell
+    i, iface, mkind, bc, lock, scale, beta, xkk, (f, s), patname = cell
     n = rng.randint(3, 4)
     m = rng.randint(n, 5)
     while True:
         A = rand_int_matrix(rng, m, n)
-        if np.linalg.matrix_rank(np.array(A)) == n:
+        if np.linalg.matrix_rank(np.array(A)) == n and np.linalg.cond(np.array(A)) < 20:
             break
-    f, s = NOISE_CELLS[(i * 3) % 16]
     loc = {"zero": [0.0], "scalar": [rng.choice([1.0, -2.0, 0.5, 3.0])], "vector": rand_dyadic_vec(rng, n, 2, -3, 3),
            "const-vector": [rng.choice([1.0, -1.5, 2.0])] * n}[lock]
     if lock == "vector" and len(set(loc)) == 1:
         loc[0] += 1.0
     xk = [0.0] * n if xkk == "zero" else rand_dyadic_vec(rng, n, 4, -3, 3)
-    return {"kind": "ugla", "iface": iface, "target": "posterior", "mkind": mkind, "n": n,
+    spec = {"kind": "ugla", "iface": iface, "target": "posterior", "mkind": mkind, "n": n,
             "liks": [{"A": A, "b": [float(rng.randint(-5, 5)) for _ in range(m)], "noise": gen_gspec(rng, m, f, s)}],
             "prior": {"kind": "lmrf", "bc": bc, "loc": loc, "scale": scale}, "beta": beta, "xcurs": [xk], "idx": i}
+    spec["cell"] = cell_name(spec) + "/noise=%s-%s/units=%s" % (f, s, patname)
+    return apply_scale(spec, PATTERN_BY_NAME[patname])
 
 
 # ---------------------------------------------------------------------------------------------
 # cases
 # ---------------------------------------------------------------------------------------------
 def small_dyadic(x, bits=14):
+    """a dyadic rational with at most `bits` significant bits, whatever its exponent (unit scaling by powers of two does
+    not change it): sums and products of a few such numbers of a common scale are exact in binary64"""
     f = F(x)
-    d = f.denominator
-    return d & (d - 1) == 0 and abs(f.numerator).bit_length() <= bits and d.bit_length() <= bits
+    d, nnum = f.denominator, abs(f.numerator)
+    if d & (d - 1) != 0:
+        return False
+    while nnum and nnum % 2 == 0:
+        nnum //= 2
+    return nnum.bit_length() <= bits
 
 
 def all_small(*arrs):
@@ -736,23 +935,23 @@ def rto_cases(spec, obs, fail):
     body = "check_precompute %s %s %s pr %s %s %s" % (tol, cnat(n), c_liks_obs(spec, obs), qv(obs["b_tild"]), qm(obs["M_fwd"]), qm(obs["M_adj"]))
     add("precompute", c_prior_obs(spec, obs, body), extra={"exact": exact})
     # 3. every transition returns a point satisfying the normal equations of the model's (M, b_tild)
-    dr = clist(["(%s, %s)" % (qv(d["e"]), qv(d["x"])) for d in obs["draws"]])
+    dr = clist(["(%s, %s, %s)" % (qv(d["xcur_v"]), qv(d["e"]), qv(d["x"])) for d in obs["draws"]])
     body = "check_draws %s %s %s pr %s && %s" % (c_tol(8), cnat(n), c_liks_obs(spec, obs), dr, cbool(all(d["fired"] for d in obs["draws"])))
     add("draws", c_prior_obs(spec, obs, body))
     # 4. the affine map against the posterior the user specified
     ls = clist(["(%s, %s, %s, %s)" % (qm(l["A"]), COQF[l["noise"]["form"]], c_gval(l["noise"]), qv(l["b"])) for l in spec["liks"]])
     x0 = obs["draws"][0]["x"]
     xs = [obs["draws"][1 + i]["x"] for i in range(p)]
-    add("law", "check_law_spec tol6 %s %s %s %s %s" % (cnat(n), ls, c_prior_spec(spec, obs), qv(x0), qm(xs)))
-    # 5. independence of the current state
+    add("law", "check_law_spec tol6 %s %s %s %s %s %s" % (cnat(n), ls, c_prior_spec(spec, obs), qs(obs["c"]), qv(x0), qm(xs)))
+    # 5. independence of the current state (differences relative to the natural scale of x read off above)
     ref = {}
     pairs = []
     for d in obs["draws"]:
         key = tuple(d["e"])
         if key in ref:
-            pairs.append("check_state_indep tol6 %s %s" % (qv(d["x"]), qv(ref[key])))
+            pairs.append("(%s, %s)" % (qv(d["x"]), qv(ref[key])))
         ref.setdefault(key, d["x"])
-    add("state", " && ".join(pairs) if pairs else "true")
+    add("state", "check_state_indep tol6 %s %s %s %s" % (qs(obs["c"]), qv(x0), qm(xs), clist(pairs)))
     if fail and fail[0] in ("state", "affine"):
         cases[-1].impl_fail, cases[-1].signature = detail, sig
         cases[-2].impl_fail, cases[-2].signature = None, ""
@@ -784,14 +983,13 @@ def ugla_cases(spec, obs, fail, fixed):
         cases.append(Case(expr=expr, meta={"spec": spec, "stage": stage, "variant": variant}, cell=cell, kind="EXACT",
                           impl_fail=detail if impl else None, signature=sig if impl else ""))
     add("forms", "check_forms tol9 [(%s, %s, %s, %s)]" % (COQF[l["noise"]["form"]], cnat(len(l["b"])), c_gval(l["noise"]), qm(obs["S_liks"][0])))
-    add("precompute", "check_ugla_precompute tol9 %s %s %s %s %s %s %s %s && qcl_close tol9 %s %s" % (
-        variant, raw, qv(xk), qv(sw), qm(obs["L2"]), qv(obs["b_tild"]), qm(obs["M_fwd"]), qm(obs["M_adj"]),
-        qv(obs["b_tild_last"]), qv(obs["b_tild"])))
+    add("precompute", "check_ugla_precompute tol9 %s %s %s %s %s %s %s %s" % (
+        variant, raw, qv(xk), qv(sw), qm(obs["L2"]), qv(obs["b_tild"]), qm(obs["M_fwd"]), qm(obs["M_adj"])))
     dr = clist(["(%s, %s)" % (qv(d["e"]), qv(d["x"])) for d in obs["draws"]])
-    add("draws", "check_ugla_draws %s %s %s %s %s && %s" % (c_tol(8), variant, raw, qv(sw), dr, cbool(all(d["fired"] for d in obs["draws"]))))
+    add("draws", "check_ugla_draws %s %s %s %s %s %s && %s" % (c_tol(8), variant, raw, qv(xk), qv(sw), dr, cbool(all(d["fired"] for d in obs["draws"]))))
     x0 = obs["draws"][0]["x"]
     xs = [obs["draws"][1 + i]["x"] for i in range(p)]
-    law = "check_ugla_law_spec tol6 %s %s %s %s %s %s %s" % (raw, COQF[l["noise"]["form"]], c_gval(l["noise"]), qv(xk), qv(swd), qv(x0), qm(xs))
+    law = "check_ugla_law_spec tol6 %s %s %s %s %s %s %s %s" % (raw, COQF[l["noise"]["form"]], c_gval(l["noise"]), qs(obs["c"]), qv(xk), qv(swd), qv(x0), qm(xs))
     if fail and spec.get("Dloc_nonzero") and not fixed:
         # inside the known defect class the documented law is expected to fail: the faithful model (UglaCode) is tied by
         # the precompute / draws stages; the law stage carries the oracle's verdict
@@ -837,7 +1035,8 @@ def build_rto(cuqi, rng, cellspec):
             with quiet():
                 Pop = dense(mk_prior(cuqi, spec)._prec_op.get_matrix()).tolist()
         H, r = user_posterior(spec, {"Pop": Pop})
-        if not np.all(np.isfinite(H)) or np.linalg.cond(H) > 2e3:
+        Hf = np.array([[float(v) for v in row] for row in H])
+        if not np.all(np.isfinite(Hf)) or np.linalg.cond(Hf) > 2e3:
             continue
         rows_prior = spec["n"] if pr["kind"] != "joint" else sum(len(b["S"]) for b in pr["blocks"])
         p = sum(len(l["b"]) for l in spec["liks"]) + rows_prior
@@ -1033,17 +1232,18 @@ def replay(ctx, meta):
         return 0
     print("configuration:", cell_name(spec))
     print(json.dumps(spec, indent=None)[:3000])
-    obs = observe(cuqi, spec)
+    obs = try_observe(cuqi, spec)
+    if "raised" in obs:
+        print("implementation raised on this valid configuration:", obs["raised"])
+        return 0
     x0, G = read_off(obs)
-    if spec["kind"] == "rto":
-        H, r = user_posterior(spec, obs)
-    else:
-        H, r = ugla_doc_posterior(spec, obs)
+    H, r, mean, cov = exact_posterior(spec, obs)
+    print("unit-scale pattern:", spec.get("scale", {"name": "base"}))
     print("implementation: b_tild        =", obs["b_tild"])
     print("implementation: offset x(e=0) =", x0.tolist())
-    print("expected      : posterior mean =", np.linalg.solve(H, r).tolist())
-    print("implementation: G G^T         =", (G @ G.T).tolist())
-    print("expected      : H^-1          =", np.linalg.inv(H).tolist())
+    print("expected      : posterior mean =", [float(v) for v in mean], "(exact rational arithmetic)")
+    print("implementation: G G^T         =", (G @ G.T).tolist(), "(read off with perturbations %g * e_i)" % obs["c"])
+    print("expected      : H^-1          =", [[float(v) for v in row] for row in cov])
     fail = oracle_check(spec, obs)
     print("oracle verdict:", "property holds on this configuration" if fail is None else "PROPERTY FAILS (%s): %s" % fail)
     return 0
